@@ -20,12 +20,16 @@ def liftCb {γ : Type} (f : α → Except Nat γ) : α → Except Err γ := fun 
   | .ok b => .ok b
   | .error n => .error (.cb n)
 
-theorem liftCb_hard {γ : Type} (f : α → Except Nat γ) : ∀ a e, liftCb f a = .error e → Err.soft e = false := by
+theorem liftCb_hard' {soft : Err → Bool} (hcb : ∀ n, soft (.cb n) = false) {γ : Type} (f : α → Except Nat γ) :
+    ∀ a e, liftCb f a = .error e → soft e = false := by
   intro a e h
   unfold liftCb at h
   split at h
   · cases h
-  · cases h; rfl
+  · cases h; exact hcb _
+
+theorem liftCb_hard {γ : Type} (f : α → Except Nat γ) : ∀ a e, liftCb f a = .error e → Err.soft e = false :=
+  liftCb_hard' (fun _ => rfl) f
 
 inductive SPipe (α : Type) where
   | src
@@ -95,45 +99,47 @@ theorem SPipe.proj_wrap {σ0 : Type} (base : SM σ0 α) (p : SPipe α) (s : σ0)
   | chunkFlat n p ih => exact ih
 
 /-- **A stream pipeline of any depth denotes the composition of its stages' functions**, for every
-termination of the base stream and any soft failures on the way. -/
-theorem spipe_sden {σ0 : Type} {base : SM σ0 α} {c : σ0 → Nat} (p : SPipe α) {s : σ0} {L : List (α × Nat)} {t : Term}
-    (h : SDen Err.soft base c s L t) :
-    SDen Err.soft (p.machine base).m (fun st => c ((p.machine base).proj st)) ((p.machine base).wrap s)
+termination of the base stream and any soft failures on the way (whatever counts as soft, as long as
+callback failures do not). -/
+theorem spipe_sden' {soft : Err → Bool} (hcb : ∀ n, soft (.cb n) = false) {σ0 : Type} {base : SM σ0 α} {c : σ0 → Nat}
+    (p : SPipe α) {s : σ0} {L : List (α × Nat)} {t : Term} (h : SDen soft base c s L t) :
+    SDen soft (p.machine base).m (fun st => c ((p.machine base).proj st)) ((p.machine base).wrap s)
       (p.spec (c s) L t).1 (p.spec (c s) L t).2 := by
   induction p with
   | src => exact h
-  | filter keep p ih => exact filter_sden (liftCb keep) (liftCb_hard keep) ih
-  | map f p ih => exact map_sden (liftCb f) (liftCb_hard f) ih
+  | filter keep p ih => exact filter_sden (liftCb keep) (liftCb_hard' hcb keep) ih
+  | map f p ih => exact map_sden (liftCb f) (liftCb_hard' hcb f) ih
   | first n p ih =>
     have := first_sden ih n
     simp only [SPipe.proj_wrap] at this
     exact this
-  | while_ f p ih => exact while_sden (liftCb f) (liftCb_hard f) ih
+  | while_ f p ih => exact while_sden (liftCb f) (liftCb_hard' hcb f) ih
   | compact eq p ih => exact compact_sden eq ih none
   | peek p ih => exact peek_sden ih
   | chunkFlat n p ih => exact flattenSlices_sden (chunk_sden n ih [])
 
+theorem spipe_sden {σ0 : Type} {base : SM σ0 α} {c : σ0 → Nat} (p : SPipe α) {s : σ0} {L : List (α × Nat)} {t : Term}
+    (h : SDen Err.soft base c s L t) :
+    SDen Err.soft (p.machine base).m (fun st => c ((p.machine base).proj st)) ((p.machine base).wrap s)
+      (p.spec (c s) L t).1 (p.spec (c s) L t).2 := spipe_sden' (fun _ => rfl) p h
+
 /-- **A stream pipeline of any depth forwards `Next` and `Close` to its base stream**: every step makes
-at most one base step (under the same context), `Close` is exactly one base `Close`. The hypotheses are
-the regenerated `s.inner.Close()` facts. -/
-theorem spipe_forwards {σ0 : Type} (base : SM σ0 α) (p : SPipe α)
-    (hFi : stFilterCloseForwards = true := by decide) (hM : stMapCloseForwards = true := by decide)
-    (hF : stFirstCloseForwards = true := by decide) (hW : stWhileCloseForwards = true := by decide)
-    (hC : stCompactCloseForwards = true := by decide) (hP : stPeekCloseForwards = true := by decide)
-    (hCh : stChunkCloseForwards = true := by decide) (hFS : stFlattenSlicesCloseForwards = true := by decide) :
+at most one base step (under the same context), `Close` is exactly one base `Close` (the regenerated
+`s.inner.Close()` facts, `Proofs/StreamFacts.lean`, are used by the `*_forwards` lemmas). -/
+theorem spipe_forwards {σ0 : Type} (base : SM σ0 α) (p : SPipe α) :
     Forwards base (p.machine base).m (p.machine base).proj := by
   have _ties := And.intro Skeleton.Tie.stFilter (And.intro Skeleton.Tie.stMap (And.intro Skeleton.Tie.stFirst
     (And.intro Skeleton.Tie.stWhile (And.intro Skeleton.Tie.stCompact (And.intro Skeleton.Tie.stPeek
     (And.intro Skeleton.Tie.stChunk Skeleton.Tie.stFlattenSlices))))))
   induction p with
   | src => exact Forwards.refl base
-  | filter keep p ih => exact ih.comp (filter_forwards (liftCb keep) _ hFi)
-  | map f p ih => exact ih.comp (map_forwards (liftCb f) _ hM)
-  | first n p ih => exact ih.comp (first_forwards _ hF)
-  | while_ f p ih => exact ih.comp (while_forwards (liftCb f) _ hW)
-  | compact eq p ih => exact ih.comp (compact_forwards eq _ hC)
-  | peek p ih => exact ih.comp (withPeek_forwards _ hP)
-  | chunkFlat n p ih => exact (ih.comp (chunk_forwards (n : Int) _ hCh)).comp (flattenSlices_forwards _ hFS)
+  | filter keep p ih => exact ih.comp (filter_forwards (liftCb keep) _)
+  | map f p ih => exact ih.comp (map_forwards (liftCb f) _)
+  | first n p ih => exact ih.comp (first_forwards _)
+  | while_ f p ih => exact ih.comp (while_forwards (liftCb f) _)
+  | compact eq p ih => exact ih.comp (compact_forwards eq _)
+  | peek p ih => exact ih.comp (withPeek_forwards _)
+  | chunkFlat n p ih => exact (ih.comp (chunk_forwards (n : Int) _)).comp (flattenSlices_forwards _)
 
 /-! ## what a failure of the base stream can turn into -/
 
